@@ -449,7 +449,7 @@ class Evaluator:
                 except (ValueError, IndexError) as e:
                     raise Crash(f'{type(e).__name__} in `{src(n)}`')
         if isinstance(f, ast.Attribute) and isinstance(f.value, ast.Name) and f.value.id not in env \
-                and self.mod.imports.get(f.value.id) == ('module', 're') and f.attr in ('search', 'match', 'fullmatch'):
+                and self.mod.imports.get(f.value.id) == ('module', 're') and f.attr in ('search', 'match', 'fullmatch', 'finditer', 'findall'):
             import re as _re
             args, kw = self._args(n, env)
             if len(args) < 2 or not isinstance(args[0], str):
@@ -458,7 +458,8 @@ class Evaluator:
                 raise Unknown('text of the token')
             if not isinstance(args[1], str) or any(not isinstance(x, int) for x in args[2:]):
                 raise Unsupported('re.search operands')
-            return getattr(_re, f.attr)(args[0], args[1], *args[2:])
+            r_ = getattr(_re, f.attr)(args[0], args[1], *args[2:])
+            return list(r_) if f.attr == 'finditer' else r_
         if isinstance(f, ast.Attribute) and isinstance(f.value, ast.Name) and f.value.id not in env \
                 and self.mod.imports.get(f.value.id) == ('module', 're') and f.attr == 'compile':
             args, kw = self._args(n, env)
